@@ -384,6 +384,8 @@ func runC03(c *an.Ctx) {
 			})
 			c.Min("C03.c", "writes of the cached head in syncStore.Append", nStore, 2)
 			checkArith(c, "C03.c", []*ssa.Function{ssAppend}, map[string]bool{"index": true, "slice": true, "usub": true}, nil, nil)
+			checkAdjacencyExact(c, "C03.c", ssAppend)
+			checkCacheMoveThenAppend(c, "C03.c")
 		}
 	}
 
